@@ -515,6 +515,29 @@ def udtOrder (l : List Row) : List Row := [l.getD 0 default, l.getD 2 default, l
 def memberHome (enclosing owner : Src) : List A :=
   [("home_region", .own)] ++ pre "home_region" (regionWithMember enclosing owner .self)
 
+/-- `declP` for the second declaration of a (name, type) pair: operand 3 is the first declaration -/
+def redeclP (name : Src) (init : Src) : List A :=
+  stmtP ++ [("specifiers", .val "#0"), ("linkage", .unset), ("name", name), ("home_region", .unset), ("lexical_region", .unset),
+            ("initializer", init), ("master", .arg 3), ("decl_set.size", .val "#2"), ("decl_set.0", .arg 3), ("decl_set.1", .self)]
+
+/-- the eight declaration makers of a scope called a second time with the same name and type
+    (operands: scope, name, type / initializer, first declaration) -/
+def redeclMakers : List Row :=
+  let key (i : Nat) (sig : String) := "Scope::" ++ scopeFns.getD i "" ++ sig ++ "#redeclaration"
+  let v (i : Nat) (sig : String) (k : Kind) (sort2 kindSort : String) (extra : List A) : Row :=
+    node (key i sig) k .generative ["Scope", "Name", sort2, kindSort] (some (.arg 2)) (redeclP (.arg 1) .absent ++ extra)
+  [ node (key 0 "(Name,Expr)") .Alias .generative ["Scope", "Name", "Expr", "Alias"] (some (.via 2 .h_type)) (redeclP (.arg 1) (.arg 2)),
+    v 1 "(Name,Type)" .Var "Type" "Var" [("definition", .absent)],
+    v 2 "(Name,Type)" .Field "Type" "Field" [],
+    v 3 "(Name,Type)" .Bitfield "Type" "Bitfield" [("precision", .unset)],
+    v 4 "(Name,Type)" .Typedecl "Type" "Typedecl" [("definition", .absent)],
+    v 5 "(Name,Function)" .Fundecl "Function" "Fundecl" [("mapping", .absent), ("parameters", .unset), ("definition", .absent)],
+    -- the primary template of a redeclared primary template is the master declaration
+    node (key 6 "(Name,Forall)") .Template .generative ["Scope", "Name", "Forall", "Template"] (some (.arg 2))
+      (redeclP (.arg 1) .unset ++ templateP (.arg 3)),
+    node (key 7 "(Name,Forall)") .Template .generative ["Scope", "Name", "Forall", "Template"] (some (.arg 2))
+      (redeclP (.arg 1) .unset ++ templateP .unset)]
+
 def containers : List Row :=
   [node "Region::make_subregion()" .Region .generative ["Region"] none
      ([("span", .val "#0:0:0-0:0:0"), ("enclosing", .arg 0), ("owner", .absent), ("body.size", .val "#0"), ("bindings", .own)] ++
@@ -523,10 +546,9 @@ def containers : List Row :=
   -- `Region::declare_alias(n, t)` aliases the type t: the alias's type is the type of t, i.e. `typename` for every compound type
   declMakers "Region" regionFns ["Region"] (.const .k_typename) ++
   declMakers "Scope" scopeFns ["Scope"] (.via 2 .h_type) ++
-  -- a redeclaration joins the declaration set of the first declaration, which stays the master (interface 1765-1770)
-  [node "Scope::make_var(Name,Type)#redeclaration" .Var .generative ["Scope", "Name", "Type", "Var"] (some (.arg 2))
-     (stmtP ++ [("specifiers", .val "#0"), ("linkage", .unset), ("name", .arg 1), ("home_region", .unset), ("lexical_region", .unset),
-      ("initializer", .absent), ("master", .arg 3), ("decl_set.size", .val "#2"), ("decl_set.0", .arg 3), ("decl_set.1", .self), ("definition", .absent)])] ++
+  -- a redeclaration (second entry of the same name and type in one scope) joins the declaration set of the first declaration,
+  -- which stays the master; everything else reads as for a first declaration (interface 1765-1770; src/impl.cxx `redeclare` paths)
+  redeclMakers ++
   udtOrder (declMakers "Udt" regionFns ["Region", "Class"] (.const .k_typename)) ++
   [ -- a base-class subobject is named like its type; it lives in the class's region of bases (interface 1810-1823)
     node "Class::declare_base(Type)" .Base_type .generative ["Region", "Class", "Type"] (some (.arg 2))
